@@ -23,7 +23,7 @@ Definition eff (s s' : shared) (l : local) (sd : bool) : Prop :=
                   led b = led a ++ [v] /\ fl b = fl a)
   \/ (exists idx v c, pcl l = P3 sd idx v c /\ res b = fst (store_step (res a) idx v c) /\ led b = led a /\
                       fl b = without (me l) (fl a))
-  \/ (exists n len acc W St, pcl l = K9 sd n len acc W St /\ values (res b) = values (res a) /\ count (res b) = 0 /\
+  \/ (exists k n len acc W St, pcl l = K9 k sd n len acc W St /\ values (res b) = values (res a) /\ count (res b) = 0 /\
                           led b = [] /\ fl b = fl a).
 
 Lemma step_eff s l s' l' : step s l = Some (s', l') -> forall sd, eff s s' l sd.
@@ -40,7 +40,7 @@ Proof.
     + left. split; [reflexivity|]. intros i' v' c' H. inversion H; subst. rewrite Bool.eqb_reflx in Q. discriminate.
   - destruct (lock s); inversion E; subst s' l'; left; (split; [destruct sd; reflexivity|discriminate]).
   - inversion E; subst s' l'. rewrite side_set. destruct (Bool.eqb sd0 sd) eqn:Q; [|left; split; [reflexivity|discriminate]].
-    apply Bool.eqb_prop in Q. subst sd0. right; right; right; right. exists n, len, acc, W, St. cbn. auto.
+    apply Bool.eqb_prop in Q. subst sd0. right; right; right; right. exists k, n, len, acc, W, St. cbn. auto.
   - discriminate.
 Qed.
 
@@ -55,18 +55,19 @@ Proof.
 Qed.
 
 Lemma step_glog s l s' l' : step s l = Some (s', l') ->
-  glog s' = glog s \/ exists d W St, pcl l = K10 d W St /\ glog s' = (d, W, St) :: glog s.
+  glog s' = glog s \/ exists k d W St, pcl l = K10 k d W St /\ glog s' = (d, W, St, k) :: glog s.
 Proof.
   intros E. unfold step in E. destruct (pcl l);
     try (inversion E; subst s' l'; left; try reflexivity; apply (set_side_misc _ _ _); fail).
   - destruct (store_step (res (side s sd)) idx v c). inversion E; subst s' l'. left. apply (set_side_misc _ _ _).
   - destruct (lock s); inversion E; subst s' l'; left; reflexivity.
-  - inversion E; subst s' l'. right. eauto.
+  - inversion E; subst s' l'. right. do 4 eexists. split; reflexivity.
 Qed.
 
 (* ---- the accounting statement for one drain: [W] = ledger of the side when the count was read *)
-Definition dg (cap : nat) (n len : N) (acc W : list N) : Prop :=
-  n = N.of_nat (length W) /\ len = N.min n (N.of_nat cap) /\ N.of_nat (length acc) <= len /\
+Definition takeof (k : option N) (len : N) : N := match k with None => len | Some k' => N.min k' len end.
+Definition dg (cap : nat) (k : option N) (n len : N) (acc W : list N) : Prop :=
+  n = N.of_nat (length W) /\ len = N.min n (N.of_nat cap) /\ N.of_nat (length acc) = takeof k len /\
   (forall v, In v acc -> In v W) /\ (n <= N.of_nat cap -> acc = firstn (length acc) W).
 
 (* ---- what a thread's program counter says about the shared state (outside the late-push class) *)
@@ -75,11 +76,11 @@ Definition T (cap : nat) (s : shared) (x : local) : Prop :=
   | P2 sd v c => In (me x) (fl (side s sd))
   | P3 sd idx v c => In (me x) (fl (side s sd)) /\ nth_error (led (side s sd)) (N.to_nat idx) = Some v
   | K7 k up => fl (side s up) = []
-  | K8 sd n len take i acc W St =>
+  | K8 k sd n len take i acc W St =>
       fl (side s sd) = [] /\ W = led (side s sd) /\ n = N.of_nat (length W) /\ len = N.min n (N.of_nat cap) /\
-      take <= len /\ i < take /\ acc = firstn (N.to_nat i) (values (res (side s sd))) /\ Permutation St W
-  | K9 sd n len acc W St => fl (side s sd) = [] /\ dg cap n len acc W /\ Permutation St W
-  | K10 d W St => dg cap (d_unsampled d) (d_len d) (d_vals d) W /\ Permutation St W
+      take = takeof k len /\ i < take /\ acc = firstn (N.to_nat i) (values (res (side s sd))) /\ Permutation St W
+  | K9 k sd n len acc W St => fl (side s sd) = [] /\ dg cap k n len acc W /\ Permutation St W
+  | K10 k d W St => dg cap k (d_unsampled d) (d_len d) (d_vals d) W /\ Permutation St W
   | _ => True
   end.
 
@@ -93,14 +94,14 @@ Proof. intros ->. reflexivity. Qed.
    as use_primary points to the other side *)
 Lemma drain_frame cap s s' l sd :
   usep s = negb sd -> fl (side s sd) = [] -> T cap s l -> eff s s' l sd ->
-  side s' sd = side s sd \/ exists n len acc W St, pcl l = K9 sd n len acc W St.
+  side s' sd = side s sd \/ exists k n len acc W St, pcl l = K9 k sd n len acc W St.
 Proof.
-  intros Hu Hf Tl [[E _]|[(E & _)|[(v & c & P & _)|[(idx & v & c & P & _)|(n & len & acc & W & St & P & _)]]]].
+  intros Hu Hf Tl [[E _]|[(E & _)|[(v & c & P & _)|[(idx & v & c & P & _)|(k0 & n & len & acc & W & St & P & _)]]]].
   - left. exact E.
   - exfalso. rewrite Hu in E. destruct sd; discriminate.
   - exfalso. unfold T in Tl. rewrite P in Tl. rewrite Hf in Tl. exact Tl.
   - exfalso. unfold T in Tl. rewrite P in Tl. rewrite Hf in Tl. destruct Tl as [[] _].
-  - right. exists n, len, acc, W, St. exact P.
+  - right. exists k0, n, len, acc, W, St. exact P.
 Qed.
 
 Lemma T_other cap s s' ls t l u x :
@@ -114,10 +115,10 @@ Proof.
   { intros A B. pose proof (HL t l Ht A) as LA. pose proof (HL u x Hu B) as LB. rewrite LA in LB. inversion LB. congruence. }
   assert (Hreg : forall sd, drain_side (pcl x) = Some sd -> fl (side s sd) = [] ->
                  side s' sd = side s sd).
-  { intros sd D F. destruct (drain_frame cap s s' l sd (HU u x sd Hu D) F Tl (Heff sd)) as [E|(n & len & acc & W & St & P)]; [exact E|].
+  { intros sd D F. destruct (drain_frame cap s s' l sd (HU u x sd Hu D) F Tl (Heff sd)) as [E|(k0 & n & len & acc & W & St & P)]; [exact E|].
     exfalso. apply Hex; [rewrite P; reflexivity|]. destruct (pcl x); cbn in D; try discriminate; reflexivity. }
   assert (Hmem : forall sd, In (me x) (fl (side s sd)) -> In (me x) (fl (side s' sd))).
-  { intros sd H. destruct (Heff sd) as [[E _]|[(_ & _ & _ & _ & E)|[(v & c & _ & _ & _ & _ & E)|[(idx & v & c & _ & _ & _ & E)|(n & len & acc & W & St & _ & _ & _ & _ & E)]]]].
+  { intros sd H. destruct (Heff sd) as [[E _]|[(_ & _ & _ & _ & E)|[(v & c & _ & _ & _ & _ & E)|[(idx & v & c & _ & _ & _ & E)|(k0 & n & len & acc & W & St & _ & _ & _ & _ & E)]]]].
     - rewrite E. exact H.
     - rewrite E. right. exact H.
     - rewrite E. exact H.
@@ -125,7 +126,7 @@ Proof.
     - rewrite E. exact H. }
   unfold T in *. destruct (pcl x) eqn:Px; auto.
   - destruct Tx as [A B]. split; [apply Hmem; exact A|].
-    destruct (Heff sd) as [[E _]|[(_ & _ & _ & E & _)|[(v0 & c0 & _ & _ & _ & E & _)|[(idx0 & v0 & c0 & _ & _ & E & _)|(n & len & acc & W & St & P & _ & _ & _ & E)]]]].
+    destruct (Heff sd) as [[E _]|[(_ & _ & _ & E & _)|[(v0 & c0 & _ & _ & _ & E & _)|[(idx0 & v0 & c0 & _ & _ & E & _)|(k0 & n & len & acc & W & St & P & _ & _ & _ & E)]]]].
     + rewrite E. exact B.
     + rewrite E. exact B.
     + rewrite E. rewrite nth_error_app1; [exact B|]. apply nth_error_Some. rewrite B. discriminate.
@@ -184,7 +185,7 @@ Definition cntS (s : shared) : Prop := forall sd, count (res (side s sd)) = N.of
 Lemma U_step cap s l s' l' : capS cap s -> cntS s -> step s l = Some (s', l') -> capS cap s' /\ cntS s'.
 Proof.
   intros HC HN E. pose proof (step_eff s l s' l' E) as Heff. split; intros sd; specialize (Heff sd); specialize (HC sd); specialize (HN sd);
-    destruct Heff as [[Q _]|[(_ & _ & Q1 & Q2 & _)|[(v & c & _ & Q1 & Q2 & Q3 & _)|[(idx & v & c & _ & Q1 & Q2 & _)|(n & len & acc & W & St & _ & Q1 & Q2 & Q3 & _)]]]].
+    destruct Heff as [[Q _]|[(_ & _ & Q1 & Q2 & _)|[(v & c & _ & Q1 & Q2 & Q3 & _)|[(idx & v & c & _ & Q1 & Q2 & _)|(k0 & n & len & acc & W & St & _ & Q1 & Q2 & Q3 & _)]]]].
   - rewrite Q. exact HC.
   - rewrite Q1. exact HC.
   - rewrite Q1. exact HC.
@@ -229,7 +230,7 @@ Lemma G_step cap s ls t l s' l' :
 Proof.
   intros HC HN Tl HG Ht E sd. pose proof (step_eff _ _ _ _ E sd) as Heff.
   specialize (HG sd). specialize (HC sd). specialize (HN sd). unfold Gs1 in *.
-  destruct Heff as [[Q NP]|[(_ & (v & c & P) & Q1 & Q2 & _)|[(v & c & P & Q1 & Q2 & Q3 & _)|[(idx & v & c & P & Q1 & Q2 & _)|(n & len & acc & W & St & P & Q1 & Q2 & Q3 & _)]]]];
+  destruct Heff as [[Q NP]|[(_ & (v & c & P) & Q1 & Q2 & _)|[(v & c & P & Q1 & Q2 & Q3 & _)|[(idx & v & c & P & Q1 & Q2 & _)|(k0 & n & len & acc & W & St & P & Q1 & Q2 & Q3 & _)]]]];
     intros j Hj Hc.
   - rewrite Q in *. destruct (HG j Hj Hc) as [Wt|R]; [left|right; exact R].
     apply wit_keep with l; auto.
@@ -300,7 +301,7 @@ Lemma step_eff_st s l s' l' : step s l = Some (s', l') -> forall sd,
   \/ (exists v, stv b = stv a ++ [v] /\ led b = led a /\ p2v sd l = [] /\ p2v sd l' = [v])
   \/ (exists v, stv b = stv a /\ led b = led a ++ [v] /\ p2v sd l = [v] /\ p2v sd l' = [])
   \/ (stv b = [] /\ led b = [] /\ p2v sd l = [] /\ p2v sd l' = [] /\
-      exists n len acc W St, pcl l = K9 sd n len acc W St).
+      exists k n len acc W St, pcl l = K9 k sd n len acc W St).
 Proof.
   intros E sd. unfold step in E. destruct l as [m p td rs]. cbn [pcl me todo results] in *. cbv zeta.
   destruct p.
@@ -320,7 +321,7 @@ Proof.
     unfold p2v. cbn [goto pcl]. match goal with |- context [if ?b then _ else _] => destruct b end; reflexivity.
   - inversion E; subst s' l'. destruct sd, sd0; cbn;
       first [left; repeat split; reflexivity
-            | right; right; right; repeat split; try reflexivity; exists n, len, acc, W, St; reflexivity].
+            | right; right; right; repeat split; try reflexivity; exists k, n, len, acc, W, St; reflexivity].
   - inversion E; subst s' l'. left. unfold finish. rewrite p2v_enter. destruct sd; cbn; auto.
   - inversion E; subst s' l'. left. auto.
   - inversion E; subst s' l'. left. unfold finish. rewrite p2v_enter. auto.
@@ -341,7 +342,7 @@ Lemma Hs_step cap s ls t l s' l' :
   step s l = Some (s', l') -> Hs s' (upd ls t l').
 Proof.
   intros HT H Ht E sd v. pose proof (fm_upd (p2v sd) ls t l l' v Ht) as U. specialize (H sd v).
-  destruct (step_eff_st s l s' l' E sd) as [(A & B & C)|[(w & A & B & C & D)|[(w & A & B & C & D)|(A & B & C & D & n & len & acc & W & St & P)]]].
+  destruct (step_eff_st s l s' l' E sd) as [(A & B & C)|[(w & A & B & C & D)|[(w & A & B & C & D)|(A & B & C & D & k0 & n & len & acc & W & St & P)]]].
   - rewrite A, B. rewrite C in U. lia.
   - rewrite A, B, cnt_app. rewrite C, D in U. cbn [cnt count_occ] in U. unfold cnt in *. cbn [count_occ] in *. lia.
   - rewrite A, B, cnt_app. rewrite C, D in U. unfold cnt in *. cbn [count_occ] in *. lia.
@@ -391,12 +392,13 @@ Proof.
     { destruct (N.of_nat cap <? n) eqn:Q; [apply N.ltb_lt in Q|apply N.ltb_ge in Q]; lia. }
     rewrite Hlen.
     set (take := match k with Some k' => N.min k' (N.min n (N.of_nat cap)) | None => N.min n (N.of_nat cap) end).
-    assert (Htk : take <= N.min n (N.of_nat cap)) by (unfold take; destruct k; lia).
+    assert (Htk : take = takeof k (N.min n (N.of_nat cap))) by (unfold take, takeof; destruct k; reflexivity).
     destruct (take =? 0) eqn:Q; [apply N.eqb_eq in Q|apply N.eqb_neq in Q].
-    + split; [exact Tl|]. split; [|exact HP]. unfold dg. cbn [length]. repeat split; auto; try lia. intros v [].
+    + split; [exact Tl|]. split; [|exact HP]. unfold dg. cbn [length]. rewrite <- Htk, Q. repeat split; auto. intros v [].
     + repeat split; auto; lia.
   - inversion E; subst s' l'. clear E. destruct Tl as (F & HW & Hn & Hlen & Htk & Hi & Hacc & HP).
     pose proof (HC sd) as Hc. pose proof (HN sd) as Hcnt.
+    assert (Htl : take <= len) by (rewrite Htk; unfold takeof; destruct k; lia).
     assert (Hlt : (N.to_nat i < cap)%nat) by lia.
     set (vals := values (res (side s sd))) in *.
     assert (Hacc' : acc ++ [nth (N.to_nat i) vals 0] = firstn (S (N.to_nat i)) vals).
@@ -414,7 +416,7 @@ Proof.
         - rewrite HW. split; [exact R1|]. intros Hle. apply R2. rewrite Hcnt, <- HW. lia. }
       assert (Hlen' : length (firstn (S (N.to_nat i)) vals) = S (N.to_nat i)).
       { apply firstn_length_le. rewrite Hc. lia. }
-      unfold dg. rewrite Hlen'. split; [exact Hn|]. split; [exact Hlen|]. split; [lia|]. split.
+      unfold dg. rewrite Hlen'. split; [exact Hn|]. split; [exact Hlen|]. split; [rewrite <- Htk; lia|]. split.
       * apply (firstn_In_nth (fun v => In v W)); [rewrite Hc; lia|]. intros j Hj. apply (HGj j Hj).
       * intros Hle. apply firstn_eq_nth; [rewrite Hc; lia|]. intros j Hj. apply (HGj j Hj). exact Hle.
   - inversion E; subst s' l'. unfold T. cbn [goto pcl d_unsampled d_len d_vals]. exact (proj2 Tl).
@@ -429,7 +431,7 @@ Definition Inv3 (cap : nat) (c : config) : Prop :=
   Inv2 c /\ capS cap (fst c) /\ cntS (fst c) /\
   (late (fst c) = false ->
      (forall u x, nth_error (snd c) u = Some x -> T cap (fst c) x) /\ Gs cap (fst c) (snd c) /\ Hs (fst c) (snd c) /\
-     (forall d W St, In (d, W, St) (glog (fst c)) -> dg cap (d_unsampled d) (d_len d) (d_vals d) W /\ Permutation St W)).
+     (forall d W St k, In (d, W, St, k) (glog (fst c)) -> dg cap k (d_unsampled d) (d_len d) (d_vals d) W /\ Permutation St W)).
 
 Lemma Inv3_step cap : step_preserves step (Inv3 cap).
 Proof.
@@ -444,7 +446,7 @@ Proof.
     + apply (T_other cap s s' ls t l u x I2 Ht Hx' Hne (HT t l Ht) (HT u x Hx') (step_eff s l s' l' E)).
   - apply (G_step cap s ls t l s' l' HC HN (HT t l Ht) HG Ht E).
   - apply (Hs_step cap s ls t l s' l' HT HS Ht E).
-  - intros d W St Hin. destruct (step_glog _ _ _ _ E) as [Q|(d0 & W0 & St0 & P & Q)]; rewrite Q in Hin.
+  - intros d W St k Hin. destruct (step_glog _ _ _ _ E) as [Q|(k0 & d0 & W0 & St0 & P & Q)]; rewrite Q in Hin.
     + apply HLg; exact Hin.
     + destruct Hin as [Hin|Hin]; [inversion Hin; subst|apply HLg; exact Hin].
       pose proof (HT t l Ht) as Tl. unfold T in Tl. rewrite P in Tl. exact Tl.
@@ -460,7 +462,7 @@ Proof.
   - intros sd v. rewrite (fm_nil (p2v sd)).
     + destruct sd; reflexivity.
     + intros u x Hx. destruct (init_locals_me ps 0 u x Hx) as [_ P]. unfold p2v. rewrite P. reflexivity.
-  - intros d W St [].
+  - intros d W St k [].
 Qed.
 
 (* every schedule, thread count and program: if no side was retired with a push in flight on it,
@@ -470,18 +472,18 @@ Qed.
 Theorem accounting_except_late_push : forall cap ps sched,
   let c := fst (exec step site (init_config cap ps) sched) in
   late (fst c) = false ->
-  forall d W St, In (d, W, St) (glog (fst c)) ->
+  forall d W St k, In (d, W, St, k) (glog (fst c)) ->
     Permutation St W /\
     d_unsampled d = N.of_nat (length St) /\
     d_len d = N.min (d_unsampled d) (N.of_nat cap) /\
-    N.of_nat (length (d_vals d)) <= d_len d /\
+    N.of_nat (length (d_vals d)) = takeof k (d_len d) /\
     (forall v, In v (d_vals d) -> In v St) /\
     (d_unsampled d <= N.of_nat cap -> d_vals d = firstn (length (d_vals d)) W) /\
     sample_rate d = (if d_unsampled d <=? N.of_nat cap then (1, 1) else (N.of_nat cap, d_unsampled d)).
 Proof.
-  intros cap ps sched c HL d W St Hin.
+  intros cap ps sched c HL d W St k Hin.
   pose proof (invariant_all_schedules step site (Inv3 cap) (Inv3_step cap) sched _ (Inv3_init cap ps)) as (_ & _ & _ & HB).
-  fold c in HB. destruct (HB HL) as (_ & _ & _ & HG). destruct (HG d W St Hin) as ((A & B & C & D & F) & HP).
+  fold c in HB. destruct (HB HL) as (_ & _ & _ & HG). destruct (HG d W St k Hin) as ((A & B & C & D & F) & HP).
   split; [exact HP|]. split; [rewrite (Permutation_length HP); exact A|]. split; [exact B|]. split; [exact C|].
   split; [intros v Hv; apply (Permutation_in v (Permutation_sym HP)); apply D; exact Hv|]. split; [exact F|].
   unfold sample_rate. rewrite B.
@@ -507,7 +509,7 @@ Proof. destruct td as [|[v c|k|] r]; reflexivity. Qed.
 
 Lemma step_results s l s' l' : step s l = Some (s', l') ->
   results l' = results l \/
-  exists y, results l' = y :: results l /\ forall d, y = MConsume d -> exists W St, pcl l = K10 d W St.
+  exists y, results l' = y :: results l /\ forall d, y = MConsume d -> exists k W St, pcl l = K10 k d W St.
 Proof.
   intros E. unfold step in E. destruct l as [m p td rs]. cbn [pcl me todo results] in *.
   destruct p; try (inversion E; subst s' l'; left; try reflexivity; apply enter_results).
@@ -515,36 +517,36 @@ Proof.
     exists (MPush pr). unfold finish. rewrite enter_results. split; [reflexivity|]. intros d H. discriminate.
   - destruct (lock s); inversion E; subst s' l'; left; reflexivity.
   - inversion E; subst s' l'. right. exists (MConsume d). unfold finish. rewrite enter_results. split; [reflexivity|].
-    intros d0 H. inversion H; subst. eauto.
+    intros d0 H. inversion H; subst. do 3 eexists. reflexivity.
   - inversion E; subst s' l'. right. eexists. unfold finish. rewrite enter_results. split; [reflexivity|]. intros d H. discriminate.
 Qed.
 
 Definition Rinv (c : config) : Prop :=
   forall u x d, nth_error (snd c) u = Some x -> In (MConsume d) (results x) ->
-                exists W St, In (d, W, St) (glog (fst c)).
+                exists W St k, In (d, W, St, k) (glog (fst c)).
 
 Lemma Rinv_step : step_preserves step Rinv.
 Proof.
   intros s ls t l s' l' H Ht E u x d Hx Hin. cbn [fst snd] in *.
   assert (Hmono : forall e, In e (glog s) -> In e (glog s')).
-  { intros e He. destruct (step_glog _ _ _ _ E) as [Q|(d0 & W0 & St0 & _ & Q)]; rewrite Q; [exact He|right; exact He]. }
+  { intros e He. destruct (step_glog _ _ _ _ E) as [Q|(k0 & d0 & W0 & St0 & _ & Q)]; rewrite Q; [exact He|right; exact He]. }
   destruct (nth_error_upd_cases ls t l' u x Hx) as [[-> ->]|[Hne Hx']].
   - destruct (step_results _ _ _ _ E) as [R|(y & R & Hy)]; rewrite R in Hin.
-    + destruct (H t l d Ht Hin) as (W & St & HW). exists W, St. apply Hmono. exact HW.
+    + destruct (H t l d Ht Hin) as (W & St & k & HW). exists W, St, k. apply Hmono. exact HW.
     + destruct Hin as [->|Hin].
-      * destruct (Hy d eq_refl) as (W & St & P).
-        destruct (step_glog _ _ _ _ E) as [Q|(d0 & W0 & St0 & P0 & Q)].
+      * destruct (Hy d eq_refl) as (k & W & St & P).
+        destruct (step_glog _ _ _ _ E) as [Q|(k0 & d0 & W0 & St0 & P0 & Q)].
         -- exfalso. unfold step in E. rewrite P in E. inversion E as [[A B]]. rewrite <- A in Q. cbn in Q.
-           assert (L : length ((d, W, St) :: glog s) = length (glog s)) by (rewrite Q; reflexivity). cbn in L. lia.
-        -- rewrite P in P0. inversion P0; subst. exists W0, St0. rewrite Q. left. reflexivity.
-      * destruct (H t l d Ht Hin) as (W & St & HW). exists W, St. apply Hmono. exact HW.
-  - destruct (H u x d Hx' Hin) as (W & St & HW). exists W, St. apply Hmono. exact HW.
+           assert (L : length ((d, W, St, k) :: glog s) = length (glog s)) by (rewrite Q; reflexivity). cbn in L. lia.
+        -- rewrite P in P0. inversion P0; subst. exists W0, St0, k0. rewrite Q. left. reflexivity.
+      * destruct (H t l d Ht Hin) as (W & St & k & HW). exists W, St, k. apply Hmono. exact HW.
+  - destruct (H u x d Hx' Hin) as (W & St & k & HW). exists W, St, k. apply Hmono. exact HW.
 Qed.
 
 Theorem returned_drains_are_logged : forall cap ps sched,
   let c := fst (exec step site (init_config cap ps) sched) in
   forall u x d, nth_error (snd c) u = Some x -> In (MConsume d) (results x) ->
-                exists W St, In (d, W, St) (glog (fst c)).
+                exists W St k, In (d, W, St, k) (glog (fst c)).
 Proof.
   intros cap ps sched c.
   apply (invariant_all_schedules step site Rinv Rinv_step sched (init_config cap ps)).
@@ -562,18 +564,18 @@ Qed.
 Theorem accounting_except_late_push_full_run : forall cap ps sched fuel,
   let c := fst (exec_full step site fuel (init_config cap ps) sched) in
   late (fst c) = false ->
-  forall d W St, In (d, W, St) (glog (fst c)) ->
+  forall d W St k, In (d, W, St, k) (glog (fst c)) ->
     Permutation St W /\
     d_unsampled d = N.of_nat (length St) /\
     d_len d = N.min (d_unsampled d) (N.of_nat cap) /\
-    N.of_nat (length (d_vals d)) <= d_len d /\
+    N.of_nat (length (d_vals d)) = takeof k (d_len d) /\
     (forall v, In v (d_vals d) -> In v St) /\
     (d_unsampled d <= N.of_nat cap -> d_vals d = firstn (length (d_vals d)) W) /\
     sample_rate d = (if d_unsampled d <=? N.of_nat cap then (1, 1) else (N.of_nat cap, d_unsampled d)).
 Proof.
-  intros cap ps sched fuel c HL d W St Hin.
+  intros cap ps sched fuel c HL d W St k Hin.
   pose proof (invariant_exec_full step site (Inv3 cap) (Inv3_step cap) fuel sched _ (Inv3_init cap ps)) as (_ & _ & _ & HB).
-  fold c in HB. destruct (HB HL) as (_ & _ & _ & HG). destruct (HG d W St Hin) as ((A & B & C & D & F) & HP).
+  fold c in HB. destruct (HB HL) as (_ & _ & _ & HG). destruct (HG d W St k Hin) as ((A & B & C & D & F) & HP).
   split; [exact HP|]. split; [rewrite (Permutation_length HP); exact A|]. split; [exact B|]. split; [exact C|].
   split; [intros v Hv; apply (Permutation_in v (Permutation_sym HP)); apply D; exact Hv|]. split; [exact F|].
   unfold sample_rate. rewrite B.
